@@ -15,9 +15,38 @@ func (t *toks) recipe() spg.CharRecipe {
 	r.Require = spg.CTFlag(t.u64())
 	r.Exclude = spg.CTFlag(t.u64())
 	r.AllowChars = t.str()
-	r.RequireSets = t.strs()
+	r.RequireSets = guarded(t.strs())
 	r.ExcludeChars = t.str()
 	return r
+}
+
+// guarded returns the slice as a prefix of a longer backing array, the way a caller slicing a table of sets would
+// pass it: the two elements beyond its length belong to the caller, and guardsIntact checks after every case
+// that nobody wrote to them.
+const sentinel = "\x00caller-owned element beyond len"
+
+var guards [][]string
+
+func guarded(sets []string) []string {
+	if sets == nil {
+		return nil
+	}
+	full := make([]string, len(sets), len(sets)+2)
+	copy(full, sets)
+	full = append(full, sentinel, sentinel)
+	guards = append(guards, full)
+	return full[:len(sets):len(full)]
+}
+
+func guardsIntact() bool {
+	ok := true
+	for _, g := range guards {
+		if g[len(g)-1] != sentinel || g[len(g)-2] != sentinel {
+			ok = false
+		}
+	}
+	guards = guards[:0]
+	return ok
 }
 
 func (t *toks) budget() {
